@@ -1,13 +1,154 @@
 """C12 exists / find_one / as_sid agree with find (list-backed part; Sid.exists/children/siblings need the file system: see C15)."""
 from harness.runner import PropBase, Case
-from harness import gen
+from harness import gen, core
 from props import listsearch as ls
+from props.c01 import natural
 
 class C12(PropBase):
     id = 'C12'
     rule = ('universes x searches of the C07 family and concrete sids (existing or not): find (both as_sid), find_one, exists on FindInList; '
-            'non-trivial = something found; distinct by (universe, search)')
-    partial_note = 'Finder-level clauses on FindInList; Sid.exists/children/siblings are checked over the file-system model in the data checks'
+            'non-trivial = something found; distinct by (universe, search); and histories over a real tree in one process: Sid.exists / children / siblings of every entity, ancestor and a missing sibling, '
+            'asked on the empty tree, after a first batch of creations and after a second one (entities of every type sharing a key sequence, entities whose parent string is a leaf)')
+    partial_note = 'levels served by configured constants (no path template) are compared with the model only, not stated in the oracle'
+    def confdir(self, ws):
+        return core.make_fs_confdir(ws)
+    def fs_histories(self, rng, ctx, tier, v):
+        """universes changed between calls: probes on an empty tree, after a first batch of creations, after a second one - in one process"""
+        from props.c11 import C11
+        default = ctx['rawd']['default_path_config'] or ctx['rawd']['path_configs'][0][0]
+        self.with_path = set(k for pc in ctx['rawd']['path_configs'] if pc[0] == default for k, _ in dict((k, vv) for k, vv in pc[1])['templates'])
+        self.leaf_keys = dict(ctx['rawd']['leaf_keys'])
+        self.sep = ctx['rawd']['sep']
+        # the types whose existence is read from the file tree (the others are answered from configured constants)
+        self.routed_paths = set(t for t, d in dict((k, vv) for k, vv in dict((k, vv) for k, vv in ctx['raw'])['routing'])['finders'] if d and d[0] == 'paths')
+        out = []
+        nh = 8 if tier == 'quick' else 60
+        from props.c05 import C05
+        # the groups of path-backed types that share one key sequence (scene / movie / cache file of one state ...)
+        fam = {}
+        for t in v.order:
+            if t in self.with_path:
+                fam.setdefault(tuple(k for k, _ in v.types[t]), []).append(t)
+        fams = [g for g in fam.values() if len(g) > 1]
+        self.fs_created = {}
+        for h in range(1, nh + 1):
+            leafs = [e for e in C11().leafs(rng, v, rng.randint(3, 7)) if natural(v, e) and natural(v, e)[0] in self.with_path]
+            if fams:
+                # one entity of every type of a family, under one parent
+                g = rng.choice(fams)
+                base = C05().concrete(rng, v, g[0]).split('/')
+                for t in g:
+                    e = '/'.join(base[:-1] + [v.value(v.types[t][-1][1], rng)])
+                    if natural(v, e) and natural(v, e)[0] in self.with_path:
+                        leafs.append(e)
+            extra = []
+            for e in list(leafs):
+                n = natural(v, e)
+                keys = [k for k, _ in n[1]]
+                # the same entity in every type that shares its key sequence (scene / movie / cache file of one state)
+                for t in v.order:
+                    if t != n[0] and t in self.with_path and [k for k, _ in v.types[t]] == keys and rng.random() < 0.7:
+                        e2 = '/'.join(e.split('/')[:-1] + [v.value(v.types[t][-1][1], rng)])
+                        n2 = natural(v, e2)
+                        if n2 and n2[0] in self.with_path:
+                            extra.append(e2)
+                # a longer entity whose parent string is this one (a cache node named like an extension)
+                for t in v.order:
+                    if t in self.with_path and len(v.types[t]) == len(keys) + 1 and rng.random() < 0.5:
+                        e3 = e + '/' + v.value(v.types[t][-1][1], rng)
+                        n3 = natural(v, e3)
+                        if n3 and n3[0] in self.with_path:
+                            extra.append(e3)
+            # an extension alias as a value is a search, not an entity
+            ents = [e for e in leafs + extra if not any(g in v.alias for g in e.split('/'))]
+            if not ents:
+                continue
+            rng.shuffle(ents)
+            k = max(1, len(ents) // 2)
+            stages = [ents[:k], ents[k:]]
+            probes = set()
+            for e in ents:
+                parts = e.split('/')
+                for i in range(1, len(parts) + 1):
+                    probes.add('/'.join(parts[:i]))
+                probes.add('/'.join(parts[:-1] + ['nope']))
+            probes = sorted(probes)
+            out.append(Case('fs_reset', [], 'setup', {'h': h}))
+            created = []
+            for si in range(3):
+                if si > 0:
+                    for e in stages[si - 1]:
+                        out.append(Case('w_create', ['', e, []], 'create', {'h': h, 'stage': si}))
+                        created.append(e)
+                for x in probes:
+                    m = {'h': h, 'stage': si, 'sid': x}
+                    out.append(Case('sid_exists', [['s', x]], 'probe', m))
+                    out.append(Case('children', [['s', x]], 'probe', m))
+                    out.append(Case('siblings', [['s', x]], 'probe', m))
+                self.fs_created[(h, si)] = list(created)
+        out.append(Case('fs_reset', [], 'setup', {'h': 0}))
+        return out
+    def fs_oracle(self, cases, impl_out, ctx):
+        v = gen.vocab_from_ctx(ctx)
+        def ptype(s_):
+            n = natural(v, s_)
+            return n[0] if n and n[0] in self.with_path and n[0] in self.routed_paths else None
+        def is_leaf(s_):
+            n = natural(v, s_)
+            return bool(n) and n[1][-1][0] == self.leaf_keys.get(n[0].split(self.sep)[0])
+        def parent(s_):
+            return '/'.join(s_.split('/')[:-1])
+        fails = []
+        closures = {}
+        answers = {}
+        for c, o in zip(cases, impl_out):
+            if c.stream == 'create' and o[0] != 'ok' and o[1] != 'SpilException':      # SpilException: it exists already (as an ancestor of an earlier creation)
+                fails.append((c, o, 'create of %r raised %r' % (c.args[1], o)))
+            if c.stream != 'probe':
+                continue
+            key = (c.meta['h'], c.meta['stage'])
+            if key not in closures:
+                X = set()
+                for e in self.fs_created[key]:
+                    parts = e.split('/')
+                    keys = [k for k, _ in natural(v, e)[1]]
+                    for i in range(1, len(parts) + 1):
+                        a = '/'.join(parts[:i])
+                        # the ancestor at level i is the Sid made of the first i fields: its type is the one with exactly those keys
+                        # (the string alone may be typed otherwise: '.../w/mov' is a movie file, the parent of '.../w/mov/abc' is the node 'mov')
+                        na = natural(v, a)
+                        if ptype(a) and [k for k, _ in na[1]] == keys[:i]:
+                            X.add(a)
+                closures[key] = X
+            X = closures[key]
+            x = c.meta['sid']
+            hist = 'after creating %r' % (self.fs_created[key],)
+            if o[0] != 'ok':
+                fails.append((c, o, '%s(%r) raised %r %s' % (c.op, x, o, hist))); continue
+            if c.op == 'sid_exists':
+                answers[key + (x,)] = o[1]
+                if ptype(x) and (o[1] == '1') != (x in X):
+                    fails.append((c, o, 'Sid(%r).exists() is %s %s' % (x, o[1], hist)))
+            elif c.op == 'children':
+                got = sorted(r for r in o[1] if ptype(r))
+                exp = [] if is_leaf(x) or not natural(v, x) else sorted(e for e in X if parent(e) == x)
+                if is_leaf(x) and o[1]:
+                    fails.append((c, o, 'the leaf Sid(%r) has children %r %s' % (x, o[1], hist)))
+                elif got != exp:
+                    fails.append((c, o, 'Sid(%r).children() gives %r, the existing Sids whose parent it is are %r %s' % (x, got, exp, hist)))
+            elif c.op == 'siblings':
+                if not natural(v, x):
+                    continue
+                got = sorted(r for r in o[1] if ptype(r))
+                exp = sorted(e for e in X if parent(e) == parent(x) and len(e.split('/')) == len(x.split('/')))
+                if got != exp:
+                    fails.append((c, o, 'Sid(%r).siblings() gives %r, the existing Sids sharing its parent are %r %s' % (x, got, exp, hist)))
+        # whatever exists has an existing parent
+        for (h, si, x), a in answers.items():
+            if a == '1' and ptype(x) and ptype(parent(x)) and answers.get((h, si, parent(x))) == '0' \
+                    and [k for k, _ in natural(v, parent(x))[1]] == [k for k, _ in natural(v, x)[1]][:-1]:      # the parent Sid is the one the parent string denotes
+                fails.append((Case('sid_exists', [['s', x]], 'probe', {'h': h, 'stage': si}), ['ok', a], '%r exists but its parent %r does not' % (x, parent(x))))
+        return fails
     def cases(self, rng, ctx, tier):
         v = gen.vocab_from_ctx(ctx)
         nu, ns = (40, 25) if tier == 'quick' else (400, 80)
@@ -26,13 +167,14 @@ class C12(PropBase):
                     q = v.sid(v.any_type(rng), rng)
                 for op in ('find_list', 'find_list_sids', 'find_one', 'exists'):
                     out.append(Case(op, [items, q], 'quad', {'g': gid}))
+        out.extend(self.fs_histories(rng, ctx, tier, v))
         return out
     def oracle_bulk(self, cases, impl_out, ctx):
         groups = {}
         for c, o in zip(cases, impl_out):
             if 'g' in c.meta:
                 groups.setdefault(c.meta['g'], {})[c.op] = (c, o)
-        fails = []
+        fails = self.fs_oracle(cases, impl_out, ctx)
         for g, d in groups.items():
             if len(d) < 4:
                 continue
@@ -53,8 +195,12 @@ class C12(PropBase):
                     fails.append((ec, eo, 'exists %r but find yields %r' % (eo[1], found)))
         return fails
     def nontrivial(self, case, impl):
+        if case.stream == 'probe':
+            return [case.meta['h'], case.meta['stage'], case.op, case.args] if impl[0] == 'ok' and impl[1] not in ('0', []) else None
         return case.args if case.op == 'find_list' and impl[0] == 'ok' and impl[1] else None
     def histogram_key(self, case, impl):
+        if case.stream in ('probe', 'create', 'setup'):
+            return '%s:%s:stage%s:%s' % (case.stream, case.op, case.meta.get('stage'), 'raise' if impl[0] != 'ok' else ('some' if impl[1] not in ('0', []) else 'none'))
         return '%s:%s' % (case.op, 'raise' if impl[0] != 'ok' else (min(len(impl[1]), 3) if isinstance(impl[1], list) else impl[1]))
 
 PROP = C12()
